@@ -16,7 +16,7 @@ CLAUSE = ('ComponentDb::build registers all matchers, switches matcher auto-regi
           'fallible component still lacking one, then adds the IntoResponse transformers; ErrorHandlersDb::get_or_try_bind tries the current '
           'scope first, continues to the parents on every miss and never to children; in build_call_graph observers are visited in '
           'registration order, each new observer is ordered after the previous one and the last one before the response node, and each '
-          'borrows the error; a nested blueprint receives a snapshot of the observer chain at the point where it is nested.')
+          'borrows the error; a nested blueprint receives a snapshot of the observer chain at the point where it is nested. Every write to handler_id2error_observer_ids derives from the observer chain handed over; chains are never taken or replaced.')
 TRUSTED = ['HappensBefore edges are honoured by the ordering pass (C01)']
 
 DB = A + 'components::db::ComponentDb::'
